@@ -14,7 +14,7 @@ one() {
   git -C /repo worktree add -q --detach $W/repo HEAD || { echo "$name: worktree failed"; return; }
   git -C $W/repo apply "$d/patch.diff" || { echo "$name: patch does not apply"; git -C /repo worktree remove --force $W/repo; rm -rf $W; return; }
   rsync -a --exclude .git --exclude replays --exclude evidence --exclude seeded --exclude '.cache/run-*' --exclude '.cache/trace*' --exclude '.cache/*.txt' /verif/ $W/verif/
-  sed -i "s#/verif#$W/verif#g; s#/var/tmp/dv#$W/dv#g" $W/verif/check $W/verif/tools/*.sh $W/verif/harness/Cargo.toml $W/verif/harness/.cargo/config.toml
+  sed -i "s#/verif#$W/verif#g; s#/var/tmp/dv#$W/dv#g" $W/verif/check $W/verif/tools/*.sh $W/verif/harness/Cargo.toml $W/verif/harness/.cargo/config.toml $W/verif/probe15/Cargo.toml $W/verif/probe15/.cargo/config.toml
   mkdir -p $W/verif/evidence $W/verif/replays
   t0=$(date +%s)
   (cd $W/verif && VERIF_REPO=$W/repo ./check all > $W/out.txt 2>$W/err.txt)
